@@ -151,4 +151,14 @@ CLAIMED = {
         note='Partial: absence of mutation is a dynamic check (a functional model is pure by construction). Trusted: Coq kernel, '
              'tools/audit.py, harness.',
         technique='machine-checked Coq proof of the logical part over an audit table regenerated from the source; dynamic snapshot sweep'),
+    'C18': dict(
+        text='Partial. For the hand model of _polyline.py (_group_vertices / _build_polyline / _connect_seg_to_poly with exact end-point '
+             'matching; run against Polyline2D.join_segments vertex for vertex on integer soups) it is proved for every input list, any '
+             'order and orientation, that each input segment is used exactly once as an undirected edge of the returned chains. Total '
+             'length, maximality (as many results as chains were cut, with jitter below tol/4) in 2D and 3D, and that '
+             'joined_intersected_boundary / join_coplanar_faces of lattice tilings (voids, T-junctions) enclose exactly the union of '
+             'the tiles (unit-cell sets) are searched.',
+        note='Partial: maximality under the non-transitive tolerance and outline extraction are validated, not proved. Trusted: Coq '
+             'kernel, hand model + correspondence, harness.',
+        technique='machine-checked Coq proof about a hand-written executable model + vm_compute correspondence; exact search'),
 }
